@@ -99,4 +99,5 @@ UnorderedCreate(chunks, n, buf, maxmerge, aggs, edgesOf(_)) ==
 (* value fit (C07: a stored value is never silently different from the exact aggregate) *)
 \* TLC integers are 32-bit: for 32-bit (and wider) columns every value the harness can send fits
 Fits(v, bits) == bits >= 31 \/ (-(2 ^ (bits - 1)) <= v /\ v < 2 ^ (bits - 1))
+FitsUnsigned(v, bits) == bits >= 31 \/ (0 <= v /\ v < 2 ^ bits)
 =============================================================================
